@@ -88,7 +88,13 @@ theorem rawReserve_grow {c : Cfg} {v : VS} {used extra N : Nat} (hc : CfgOK c) (
         Nat.le_trans (Nat.mul_le_mul_left _ hnc) hsz
       have hbl : c.esz * max (v.cap * 2) (used + extra) < USIZE := by omega
       have hnb : ¬ c.allocLimit < c.esz * max (v.cap * 2) (used + extra) := by omega
-      simp [reserveInternal, amortizedNewCap, checkedAdd, checkedMul, hsum, hhalf, hbl, hal, hnb]
+      have hla : ¬ (c.esz ≠ 0 ∧ max (v.cap * 2) (used + extra) > (2 ^ 63 - c.eal) / c.esz) := by
+        intro ⟨_, hgt⟩
+        have h1 : c.esz * max (v.cap * 2) (used + extra) ≤ 2 ^ 63 - c.eal := by omega
+        have h2 : max (v.cap * 2) (used + extra) ≤ (2 ^ 63 - c.eal) / c.esz :=
+          (Nat.le_div_iff_mul_le (by omega)).mpr (by rw [Nat.mul_comm]; exact h1)
+        omega
+      simp [reserveInternal, amortizedNewCap, checkedAdd, arrayLayout, hsum, hhalf, hla, hal, hnb]
 
 /-- dropping a vector emits exactly the `drop` events of its contents -/
 theorem dropVec_own_evs {c : Cfg} {v : VS} {xs : List Elem} (h : RepB c v xs) (w : W) :
